@@ -7,6 +7,7 @@ ASSUME = [
     "statement-level scripts are generated from the node kinds, chaining/property methods and argument types that reflection (with tick.ReflectionDescriber's own rules, minus members marked tick:ignore) finds in the pipeline package of the tree under test; only scripts the real CreatePipeline accepts count; the scope is TaskMaster.CreateTICKScope plus three fake UDFs",
     "pipelines are compared by DOT, by a reflective dump of every exported node field (lambdas as canonical trees with negative literals folded, regexes by pattern) and by pipeline JSON; across pipeline/tick and pipeline JSON up to renaming of nodes and order of children",
     "deviations of pipeline/tick and of the pipeline JSON form are catalogued by exact signature (spec/TickExpr/TickExprKnown.tla, 8 known-finding keys); a signature that is not catalogued is a violation. The catalogue was built from seeds 1..12 of the quick tier and seed 1 of the thorough tier: another seed can reach a member/argument-class combination with a further, real, not yet catalogued deviation of these two unreferenced packages",
+    "the API histories trust the driver's bookkeeping of which request the server accepted (HTTP 200) for the script in force; tickfmt is built with `go build ./tick/cmd/tickfmt` from the tree under test and run as root (file modes cannot be exercised)",
     "formatting 'stable after at most one further pass' is the alarm condition (Format^3 = Format^2); immediate stability is reported as an observation only (multi-line layout can move once)",
     "TLC fingerprint collisions are negligible; the libflux link stub is never executed",
 ]
